@@ -323,6 +323,22 @@ EXTRA_E = {
  'C20': 'A guarded first-row read is not reachable between reading the header and yielding it (R20.8); a plain dict filled '
         'only in a data loop is not subscripted after it (R20.9).',
 }
+EXTRA_F = {
+ 'C01': 'Library code writes no module-level mutable object (memos shared by every view and iterator; R1.4).',
+ 'C02': 'Indexing / slicing a table applies no eager consumer to the table itself (R2.7); itertools.product & co. read all inputs.',
+ 'C05': 'key=None sorts by the header positions, not by the raw row (R5.13).',
+ 'C06': 'Key selectors are never tested for truth (R6.15); the merge step is compared per comparison outcome, whatever its spelling.',
+ 'C07': 'Key / value selectors are never tested for truth (R7.10); the exhausted-side obligations of the merge joins are imported (R7.11).',
+ 'C09': 'The Comparable table and the ascending-sort rule of the reduction constructors are part of the check (R9.16, R9.17).',
+ 'C11': 'Rows of two inputs are not compared with == as the sources delivered them (R11.8: presorted=True exposes list / tuple rows).',
+ 'C12': 'A `missing` that is accepted is read (R12.17); no None test on d.get(k) of a caller-supplied mapping (R12.18).',
+ 'C13': 'The selection code keeps no module-level memo (R13.10); the Comparable table is imported (R13.11).',
+ 'C15': 'No buffering wrapper around a stream that a source closes underneath it (R15.12); readers do not edit parsed records (R15.13).',
+ 'C16': 'The name that holds the pulled row is not re-bound inside the pass (R16.1).',
+ 'C17': 'The convenience connection is a plain sqlite3.connect(<name>) on the read and on the write side (R17.7).',
+ 'C18': 'The finaliser of the spill file unlinks it whenever it exists (paths of __del__, R18.2).',
+ 'C20': 'No early return on an empty lookup where the probe loop pads absent keys (R20.10); max() / min() over one item per data row need a default (R20.7).',
+}
 ROBUST = (' All rules are evaluated on functions in expanded form (bounded inlining of helpers unknown to the rules) and, where '
           'they evaluate decision ladders, on canonical tests and effect sequences rather than statement texts (DESIGN.md §9).')
 for _p, _t in EXTRA_D.items():
@@ -334,6 +350,8 @@ for _p, _t in EXTRA.items():
 for _p, _t in EXTRA_D.items():
     CLAIMS[_p]['text'] = CLAIMS[_p]['text'] + ' ' + _t
 for _p, _t in EXTRA_E.items():
+    CLAIMS[_p]['text'] = CLAIMS[_p]['text'] + ' ' + _t
+for _p, _t in EXTRA_F.items():
     CLAIMS[_p]['text'] = CLAIMS[_p]['text'] + ' ' + _t
 
 PENDING = 'check not yet implemented in this revision (work in progress; see DESIGN.md for the planned rules)'
